@@ -468,9 +468,52 @@ pub const C04_SNIPS: &[Snip] = &[
     st("impure-laundered-called-in-pure", "hh: fn int -> int : idi\nw :: pu -> int\n hh(1)\n end", "hh: pu int -> int : idp\nw :: pu -> int\n hh(1)\n end"),
 ];
 
+/// the hand-written snippets plus captured state: a `pu` closure (directly, nested in another `pu` closure, nested in
+/// an `fn` closure) written in an impure function reads / assigns a mutable local of that function, in every read form
+pub fn c04_snips() -> Vec<Snip> {
+    let mut out: Vec<Snip> = C04_SNIPS.to_vec();
+    let decls = [("local", "ml := 0", "ml :: 0"), ("typed-local", "ml: int = 0", "ml: int : 0")];
+    let uses: [(&str, &str); 10] = [
+        ("read", "zz :: ml"),
+        ("read-in-expression", "zz :: k + ml * 2"),
+        ("read-as-argument", "zz :: idp(ml)"),
+        ("read-in-tuple", "zz :: (ml, 1)"),
+        ("read-in-condition", "if ml == 0 do\n  zy :: 1\n end"),
+        ("read-in-blob-field", "zz :: P { x: ml }"),
+        ("read-as-result", "ml"),
+        ("read-in-list", "zz :: [ml]"),
+        ("assign", "ml = 1"),
+        ("op-assign", "ml += 1"),
+    ];
+    let shells: [(&str, &str); 4] = [
+        ("pu-closure", "hh :: pu -> int\n {U}\n 1\n end"),
+        ("pu-in-pu-closure", "hh :: pu -> int\n gg :: pu -> int\n  {U}\n  1\n end\n gg()\n end"),
+        ("pu-in-fn-closure", "hh :: fn -> int\n gg :: pu -> int\n  {U}\n  1\n end\n gg()\n end"),
+        ("pu-closure-in-branch", "if k == 7 do\n hh :: pu -> int\n  {U}\n  1\n end\nend"),
+    ];
+    for (dn, dm, dc) in decls {
+        for (un, u) in uses {
+            for (sn, sh) in shells {
+                // the twin declares the captured variable as a constant and only reads it
+                let twin_use = if un.contains("assign") { "zz :: ml" } else { u };
+                let u_fault = if un == "read-as-result" { "ml + 0".to_string() } else { u.to_string() };
+                let u_twin = if un == "read-as-result" { "ml + 0".to_string() } else { twin_use.to_string() };
+                let (f, t) = if un == "read-as-result" {
+                    (sh.replace(" {U}\n 1\n", &format!(" {}\n", u_fault)).replace("  {U}\n  1\n", &format!("  {}\n", u_fault)), sh.replace(" {U}\n 1\n", &format!(" {}\n", u_twin)).replace("  {U}\n  1\n", &format!("  {}\n", u_twin)))
+                } else {
+                    (sh.replace("{U}", &u_fault), sh.replace("{U}", &u_twin))
+                };
+                out.push(Snip::owned(format!("captured-{}:{}:{}", dn, un, sn), Kind::S, format!("{}\n{}", dm, f), format!("{}\n{}", dc, t)));
+            }
+        }
+    }
+    out
+}
+
 pub fn run_c04(run: &mut Run) {
     let depth = if run.thorough() { 3 } else { 2 };
-    run_faults(run, C04_SNIPS, prelude, depth, "faults", &|_, _| true, &|sn, _| {
+    let snips = c04_snips();
+    run_faults(run, &snips, prelude, depth, "faults", &|_, _| true, &|sn, _| {
         let mut v = vec![format!("snippet:{}", sn.id)];
         if sn.id.starts_with("impure-laundered") {
             v.push("impure-function-reaches-pu-type-through-fn-annotated-binding".to_string());
@@ -517,6 +560,27 @@ pub fn c05_prelude() -> Vec<Top> {
     tops
 }
 
+/// the positions an ill-shaped expression is tried in besides `zz :: X`: value unused, element of a tuple / list,
+/// argument of a generic / untyped function, scrutinee of an else-only case, value of a branch, operand of ==
+fn use_positions(id: &str, x: &str, twin: &str, is_enum: bool, out: &mut Vec<Snip>) {
+    let mut forms: Vec<(&str, String)> = vec![
+        ("discarded", "{X}".into()),
+        ("tuple-element", "zz :: ({X}, 1)".into()),
+        ("list-element", "zz :: [{X}]".into()),
+        ("generic-argument", "print({X})".into()),
+        ("untyped-argument", "w :: fn q do end\nw({X})".into()),
+        ("branch-value-unused", "if k == 7 do\n {X}\nend".into()),
+        ("equality-operand", "zz :: {X} == {X}".into()),
+        ("closure-result", "w :: fn ->\n {X}\n end".into()),
+    ];
+    if is_enum {
+        forms.push(("else-only-case-scrutinee", "case {X} do\n else do end\nend".into()));
+    }
+    for (fname, form) in forms {
+        out.push(Snip::owned(format!("{}@{}", id, fname), Kind::S, form.replace("{X}", x), form.replace("{X}", twin)));
+    }
+}
+
 pub fn c05_snips() -> Vec<Snip> {
     let mut out = Vec::new();
     let push = |out: &mut Vec<Snip>, id: String, fault: String, twin: String| out.push(Snip::owned(id, Kind::S, fault, twin));
@@ -534,6 +598,14 @@ pub fn c05_snips() -> Vec<Snip> {
             }
             push(&mut out, format!("unknown-field:{}", ty), format!("zz :: {} {{ {}, nope: 1 }}", ty, full), format!("zz :: {}", lit));
             push(&mut out, format!("absent-field-on-literal:{}", ty), format!("zz :: {}.nope", lit), format!("zz :: {}.{}", lit, f0));
+            if mask == 3 || mask == 1 {
+                use_positions(&format!("unknown-field:{}", ty), &format!("{} {{ {}, nope: 1 }}", ty, full), &lit, false, &mut out);
+                use_positions(&format!("absent-field-on-literal:{}", ty), &format!("{}.nope", lit), &format!("{}.{}", lit, f0), false, &mut out);
+                if mask == 3 {
+                    let less = fs.iter().skip(1).map(|f| format!("{}: {}", f.0, f.2)).collect::<Vec<_>>().join(", ");
+                    use_positions(&format!("missing-field:{}", ty), &format!("{} {{ {} }}", ty, less), &lit, false, &mut out);
+                }
+            }
             push(&mut out, format!("absent-field-on-variable:{}", ty), format!("w :: {}\nzz :: w.nope", lit), format!("w :: {}\nzz :: w.{}", lit, f0));
             push(&mut out, format!("absent-field-assign:{}", ty), format!("w := {}\nw.nope = 1", lit), format!("w := {}\nw.{} = {}", lit, f0, fs[0].3));
             push(&mut out, format!("absent-field-deferred:{}", ty), format!("w :: fn q ->\n q.nope\n end\nzz :: w({})", lit), format!("w :: fn q ->\n q.{}\n end\nzz :: w({})", f0, lit));
@@ -558,6 +630,10 @@ pub fn c05_snips() -> Vec<Snip> {
             let v0 = cons(&vs[0]);
             push(&mut out, format!("unknown-variant:{}", ty), format!("zz :: {}.Nope", ty), format!("zz :: {}", v0));
             push(&mut out, format!("unknown-variant-payload:{}", ty), format!("zz :: ({}.Nope 1)", ty), format!("zz :: {}", v0));
+            if mask == 3 || mask == 1 || mask == 2 {
+                use_positions(&format!("unknown-variant:{}", ty), &format!("{}.Nope", ty), &v0, true, &mut out);
+                use_positions(&format!("unknown-variant-payload:{}", ty), &format!("({}.Nope 1)", ty), &v0, true, &mut out);
+            }
             let arm = |v: &(&str, Option<(&str, &str)>)| match v.1 {
                 Some(_) => format!(" {} y -> do end", v.0),
                 None => format!(" {} -> do end", v.0),
@@ -597,6 +673,8 @@ pub fn c05_snips() -> Vec<Snip> {
                 format!("w :: {}\ncase w do\n{}\nend", v0, all_arms));
         }
     }
+    use_positions("tuple-index-len", "(1, 2)[2]", "(1, 2)[1]", false, &mut out);
+    use_positions("tuple-index-nested", "((1, 2), 3)[0][2]", "((1, 2), 3)[0][1]", false, &mut out);
     // tuples
     for (id, f, t) in [
         ("tuple-index-len", "zz :: (1, 2)[2]", "zz :: (1, 2)[1]"),
